@@ -230,7 +230,9 @@ theorem sessionIntercept_trace (w : World) (sraw : Option Sess) (whole : Option 
       · cases h; intro e he; simp at he; subst he; exact ⟨rfl, rfl⟩
   · split at h
     · cases h; intro e he; simp at he
-    · cases h; intro e he; simp at he; subst he; exact ⟨rfl, rfl⟩
+    · split at h
+      · cases h; intro e he; simp at he
+      · cases h; intro e he; simp at he; subst he; exact ⟨rfl, rfl⟩
   · cases h; intro e he; simp at he
   · cases h; intro e he; simp at he
   · cases h; intro e he; simp at he
